@@ -185,3 +185,58 @@ fn bprime_single_field_corruptions_never_panic() {
     println!("BPRIME evaluations={n}");
     assert!(bad.is_empty(), "ELF identification panicked:\n{}", bad.join("\n"));
 }
+
+// ---------------------------------------------------------------------------
+// C14, tier B′ (native, this process as the target): "reading the same module from target memory and from its file
+// gives the same answers". Domain: every ELF image loaded into this test process — each file-backed mapping group
+// whose first line has offset 0 and starts with the ELF magic (the test binary, libc, the dynamic linker, ...), read
+// (a) through ProcessReader at its load address and (b) from the bytes of its file; plus the vDSO, whose "file" is a
+// copy of its pages (one segment, file offsets == addresses) and whose dynamic section is NOT relocated by the loader
+// (DT_STRTAB stays module-relative, unlike every glibc-loaded object). Both the build id and the SONAME are compared,
+// an error on both sides counts as agreement. process_vm_readv on one's own pid needs no ptrace.
+// ---------------------------------------------------------------------------
+#[test]
+fn bprime_memory_and_file_agree_for_loaded_modules() {
+    let pid = std::process::id() as i32;
+    let maps = std::fs::read_to_string("/proc/self/maps").unwrap();
+    let mut seen = std::collections::HashSet::new();
+    let mut n = 0usize;
+    let mut with_soname = 0usize;
+    for line in maps.lines() {
+        let mut it = line.split_whitespace();
+        let (range, _perms, offset) = (it.next().unwrap(), it.next().unwrap(), it.next().unwrap());
+        let _dev = it.next();
+        let _inode = it.next();
+        let name = it.next().unwrap_or("");
+        let (s, e) = range.split_once('-').unwrap();
+        let (start, end) = (usize::from_str_radix(s, 16).unwrap(), usize::from_str_radix(e, 16).unwrap());
+        let is_vdso = name == "[vdso]";
+        if !(is_vdso || (name.starts_with('/') && offset.trim_start_matches('0').is_empty())) || !seen.insert(name.to_string()) {
+            continue;
+        }
+        // SAFETY: the first page of a mapping of this process that is listed readable; checked below
+        if !line.split_whitespace().nth(1).unwrap().starts_with('r') {
+            continue;
+        }
+        let head = unsafe { std::slice::from_raw_parts(start as *const u8, 4) };
+        if head != b"\x7fELF" {
+            continue;
+        }
+        let image: Vec<u8> = if is_vdso {
+            unsafe { std::slice::from_raw_parts(start as *const u8, end - start) }.to_vec()
+        } else {
+            match std::fs::read(name) { Ok(b) => b, Err(_) => continue }
+        };
+        let id_file = BuildId::read_from_module(image.as_slice().into()).ok().map(|b| b.0);
+        let id_mem = BuildId::read_from_module(ProcessReader::new(pid, start).into()).ok().map(|b| b.0);
+        assert_eq!(id_mem, id_file, "build id of {name} read from memory at {start:#x} differs from the one read from its file");
+        let so_file = SoName::read_from_module(image.as_slice().into()).ok().map(|s| s.0);
+        let so_mem = SoName::read_from_module(ProcessReader::new(pid, start).into()).ok().map(|s| s.0);
+        assert_eq!(so_mem, so_file, "SONAME of {name} read from memory at {start:#x} differs from the one read from its file");
+        if so_file.is_some() { with_soname += 1; }
+        n += 1;
+    }
+    assert!(n >= 2, "setup: expected at least the test binary and one shared object, found {n} ELF images");
+    assert!(with_soname >= 1, "setup: no loaded image with a SONAME");
+    println!("BPRIME evaluations={n}");
+}
